@@ -35,7 +35,7 @@ m = {
     },
     "engines": [{
         "name": "lean4-proof+correspondence",
-        "path": "/verif/lean (Lean 4 models, theorems, uvmodel driver), /verif/check.py, /verif/checks, /verif/harness",
+        "path": "/verif/lean (Lean 4 models, theorems, one driver executable uv_<id> per model), /verif/translators (source-to-Lean translators incl. c2lean), /verif/check.py, /verif/checks, /verif/harness",
         "serves_properties": [c["property_id"] for c in checks],
         "kind_free_text": "machine-checked Lean 4 theorems over executable models; models tied to /repo's current sources by translators (regenerated definitions) and by differential correspondence harnesses",
     }],
